@@ -204,6 +204,38 @@ def slice_view(b, l, depth=0):
             if idxs and idxs == list(range(idxs[0], idxs[0] + len(idxs))) and root is not None:
                 return shift(root, idxs[0], idxs[0] + len(idxs))
             return None
+        if rv['k'] == 'repeat':
+            # `let mut a = [0u8; N]; a.copy_from_slice(&data[o..][..N]); a`: the array is a copy of the one window that
+            # fills it (exactly one whole-array fill and no other write through a borrow of it)
+            fills = []
+            for c in b.calls:
+                if re.search(r'::(copy_from_slice|clone_from_slice)$', c.name) and len(c.args) == 2 and _borrow_base(b, c.arg_local(0)) == l:
+                    fills.append(c)
+            others = [c for c in b.calls if c not in fills and any(b.local_ty(a_).startswith('&mut') and _borrow_base(b, a_) == l for a_ in [op_local(x) for x in c.args] if a_ is not None)]
+            if len(fills) == 1 and not others:
+                return slice_view(b, fills[0].arg_local(1), depth + 1)
+            return None
+    return None
+
+
+def _borrow_base(b, l, depth=0):
+    """local whose storage the reference held in l points to, through re-borrows and unsizing casts of the WHOLE
+    value (no field / index projection); None otherwise"""
+    if l is None or depth > 8:
+        return None
+    d = b.single_def(l)
+    if d is None or d[1] != 'assign' or d[2]['place']['p']:
+        return None
+    rv = d[2]['rv']
+    if rv['k'] == 'ref':
+        pl = rv['place']
+        if not pl['p']:
+            return pl['l']
+        if all(e['k'] == 'deref' for e in pl['p']):
+            return _borrow_base(b, pl['l'], depth + 1)
+        return None
+    if rv['k'] in ('use', 'cast') and rv['op']['k'] in ('copy', 'move') and not rv['op']['place']['p']:
+        return _borrow_base(b, rv['op']['place']['l'], depth + 1)
     return None
 
 
@@ -636,7 +668,7 @@ def cd7(ctx):
     for b in ctx.f.bodies.values():
         if b.generic_dup() or b.is_test:
             continue
-        if not (b.path.startswith('frame::header::Header::') or b.path.startswith('record::')):
+        if not (b.path.startswith('frame::header::Header::') or b.path.startswith('record::') or b.path.startswith('<record::')):
             continue
         if not (int_codec_calls(b, 'to') or b.path.endswith('for_payload')):
             continue
@@ -906,6 +938,35 @@ def taint2(ctx):
         ctx.missing('cursor-slices', 'no cursor-based slicing guarded by a length check found in the frame reader')
 
 
+def appended_content_params(b):
+    """indices of the parameters of encoder body b whose CONTENT (the bytes themselves, through re-borrows and
+    content-preserving views such as as_bytes) is appended to a `&mut Vec<u8>` output"""
+    def content_root(l, depth=0):
+        # follow re-borrows and content-preserving views (as_bytes, deref, as_ref, chunk) back to a parameter
+        if l is None or depth > 10:
+            return None
+        if 1 <= l <= b.arg_count and not b.defs.get(l):
+            return l
+        for (p_, kind, data) in b.defs.get(l, []):
+            if kind == 'call' and method_name(data.name) in ('as_bytes', 'deref', 'as_ref', 'as_slice', 'as_str', 'chunk', 'borrow'):
+                return content_root(data.arg_local(0), depth + 1)
+            if kind == 'assign' and not data['place']['p']:
+                rv = data['rv']
+                pl = rv['place'] if rv['k'] == 'ref' else (rv['op']['place'] if rv['k'] in ('use', 'cast') and rv['op']['k'] in ('copy', 'move') else None)
+                if pl is not None and all(e['k'] == 'deref' for e in pl['p']):
+                    return content_root(pl['l'], depth + 1)
+        return None
+    content_params = set()
+    for cs in b.calls:
+        al = cs.arg_local(0)
+        if al is not None and b.local_ty(al).startswith('&mut std::vec::Vec<u8>') and re.search(r'Vec::<u8>::(push|extend_from_slice|extend|append|insert|resize)$|Extend<.*>>::extend', cs.name):
+            for a in cs.args[1:]:
+                r_ = content_root(op_local(a))
+                if r_ is not None:
+                    content_params.add(r_)
+    return content_params
+
+
 @rule('CD8', ['C07', 'C01'], floor=3, template='must-flow')
 def cd8(ctx):
     """Every input of an encoder reaches the output buffer; the payload of a frame reaches the block writer."""
@@ -927,29 +988,7 @@ def cd8(ctx):
             if al is not None and b.local_ty(al).startswith('&mut std::vec::Vec<u8>') and re.search(r'Vec::<u8>::(push|extend_from_slice|extend|append|insert|resize)$|Extend<.*>>::extend', cs.name):
                 for a in cs.args[1:]:
                     sink_nodes |= fl.backward(set(fl.op_nodes(a)), skip_mem=True)
-        def content_root(l, depth=0):
-            # follow re-borrows and content-preserving views (as_bytes, deref, as_ref, chunk) back to a parameter
-            if l is None or depth > 10:
-                return None
-            if 1 <= l <= b.arg_count and not b.defs.get(l):
-                return l
-            for (p_, kind, data) in b.defs.get(l, []):
-                if kind == 'call' and method_name(data.name) in ('as_bytes', 'deref', 'as_ref', 'as_slice', 'as_str', 'chunk', 'borrow'):
-                    return content_root(data.arg_local(0), depth + 1)
-                if kind == 'assign' and not data['place']['p']:
-                    rv = data['rv']
-                    pl = rv['place'] if rv['k'] == 'ref' else (rv['op']['place'] if rv['k'] in ('use', 'cast') and rv['op']['k'] in ('copy', 'move') else None)
-                    if pl is not None and all(e['k'] == 'deref' for e in pl['p']):
-                        return content_root(pl['l'], depth + 1)
-            return None
-        content_params = set()
-        for cs in b.calls:
-            al = cs.arg_local(0)
-            if al is not None and b.local_ty(al).startswith('&mut std::vec::Vec<u8>') and re.search(r'Vec::<u8>::(push|extend_from_slice|extend|append|insert|resize)$|Extend<.*>>::extend', cs.name):
-                for a in cs.args[1:]:
-                    r_ = content_root(op_local(a))
-                    if r_ is not None:
-                        content_params.add(r_)
+        content_params = appended_content_params(b)
         # Buf-typed payloads (no slice parameter to root at): the bytes handed out by Buf::chunk are what must be appended
         chunk_calls = [cs for cs in b.calls if method_name(cs.name) == 'chunk' and 'Buf' in cs.name]
         if chunk_calls:
@@ -1403,3 +1442,62 @@ def taint3(ctx):
                       'a fixed-size header is cut out of a buffer that may be shorter than HEADER_LEN (inverted or missing length test): a truncated entry makes open panic')
     if n < 2:
         ctx.missing('sinks', 'expected fixed-size header cuts in the entry decoder and the batch iterator')
+
+
+@rule('ISO5', ['C18', 'C01'], floor=1, template='must-flow')
+def iso5(ctx):
+    """The queue an entry belongs to is written to the WAL as the caller gave it: the string whose bytes the entry
+    encoder appends is a parameter or a field read as it is -- not the result of a call that cuts, clamps or rebuilds it
+    (two live queues whose names differ only in the part that was cut would replay into one another)."""
+    n = 0
+    VIEWS = ('as_bytes', 'deref', 'as_ref', 'as_str', 'borrow', 'as_slice')
+    for b in ctx.f.bodies.values():
+        if b.generic_dup() or b.is_test or b.is_closure:
+            continue
+        if not (b.path.startswith('record::') or b.path.startswith('<record::')) or not int_codec_calls(b, 'to'):
+            continue
+        k = 0
+        for cs in b.calls:
+            al = cs.arg_local(0)
+            if not (al is not None and b.local_ty(al).startswith('&mut std::vec::Vec<u8>') and re.search(r'Vec::<u8>::(extend_from_slice|extend|append)$|Extend<.*>>::extend', cs.name)):
+                continue
+            for a in cs.args[1:]:
+                # the appended bytes come from `<str>.as_bytes()`
+                srcs = []
+                seen0, work0 = set(), [op_local(a)]
+                while work0:
+                    l0 = work0.pop()
+                    if l0 is None or l0 in seen0:
+                        continue
+                    seen0.add(l0)
+                    for o in b.trace_local(l0):
+                        if o[0] == 'call' and method_name(o[1].name) == 'as_bytes' and 'str' in o[1].name:
+                            srcs.append(o[1])
+                        elif o[0] == 'call' and method_name(o[1].name) in VIEWS:
+                            work0.append(o[1].arg_local(0))
+                        elif o[0] == 'rv' and o[2]['k'] == 'ref' and all(e['k'] == 'deref' for e in o[2]['place']['p']):
+                            work0.append(o[2]['place']['l'])
+                for ab in srcs:
+                    n += 1
+                    k += 1
+                    bad = []
+                    seen = set()
+                    work = [ab.arg_local(0)]
+                    while work:
+                        l = work.pop()
+                        if l is None or l in seen:
+                            continue
+                        seen.add(l)
+                        for o in b.trace_local(l):
+                            if o[0] == 'call':
+                                if method_name(o[1].name) in VIEWS:
+                                    work.append(o[1].arg_local(0))
+                                else:
+                                    bad.append(o[1].name[-60:])
+                            elif o[0] == 'rv' and o[2]['k'] == 'ref':
+                                if all(e['k'] == 'deref' for e in o[2]['place']['p']):
+                                    work.append(o[2]['place']['l'])
+                    ctx.check(not bad, '%s:name-bytes#%d' % (b.path, k), where(b, ab.point), 'the string appended to the entry is a parameter / field, untouched',
+                              'the queue name written to the WAL is not the name the caller gave but the result of %s: entries of one queue can be replayed into another queue' % sorted(set(bad)))
+    if n == 0:
+        ctx.missing('name-input', 'no entry encoder appending the bytes of a string found')
